@@ -1,5 +1,6 @@
 from yowsup.layers import YowProtocolLayer
 from .protocolentities import *
+from yowsup.layers.protocol_iq.protocolentities import ErrorIqProtocolEntity, ResultIqProtocolEntity
 import logging
 
 logger = logging.getLogger(__name__)
@@ -36,4 +37,14 @@ class YowContactsIqProtocolLayer(YowProtocolLayer):
 
     def sendIq(self, entity):
         if entity.getXmlns() == "urn:xmpp:whatsapp:sync":
-            self.toLower(entity.toProtocolTreeNode())
+            # registered, so that an error reply finds its way up too (recvIq only knows sync results)
+            self._sendIq(entity, self.onSyncResult, self.onSyncError)
+
+    def onSyncResult(self, node, originalIqEntity):
+        if node.getChild("sync"):
+            self.toUpper(ResultSyncIqProtocolEntity.fromProtocolTreeNode(node))
+        else:
+            self.toUpper(ResultIqProtocolEntity.fromProtocolTreeNode(node))
+
+    def onSyncError(self, node, originalIqEntity):
+        self.toUpper(ErrorIqProtocolEntity.fromProtocolTreeNode(node))
